@@ -67,9 +67,14 @@ type LoopInfo struct {
 	pre       *State
 	preAt     *Term
 	modLocals map[*ssa.Alloc]bool
-	modArrays map[string]*Sort
+	modArrs   map[string]*loopArr
 	modIters  map[*ssa.Range]bool
 	modGhost  map[string]*Sort
+	// range-over-func loops synthesised at the iterator call
+	RangeFunc *ssa.Function
+	rfKeys    *Term
+	rfGhost   string
+	rfSort    *Sort
 }
 
 type Obligation struct {
@@ -112,6 +117,8 @@ type FuncTr struct {
 	pureParams map[string]bool
 	asserted   map[string]bool
 	nonNil     map[string]bool
+	astLoops   []ast.Node
+	rfLoops    []*LoopInfo
 }
 
 type deferred struct {
@@ -291,6 +298,20 @@ func (ft *FuncTr) findLoops() error {
 			})
 		}
 	}
+	ft.astLoops = astLoops
+	// range-over-func loops have no SSA loop in this function: reserve them
+	rfNodes := map[ast.Node]bool{}
+	for _, an := range fn.AnonFuncs {
+		if an.Synthetic == "range-over-func yield" {
+			if n := an.Syntax(); n != nil {
+				for _, a := range astLoops {
+					if a.Pos() == n.Pos() {
+						rfNodes[a] = true
+					}
+				}
+			}
+		}
+	}
 	// match each SSA loop to the smallest AST loop containing all its positioned instructions
 	used := map[ast.Node]bool{}
 	for _, l := range all {
@@ -314,7 +335,7 @@ func (ft *FuncTr) findLoops() error {
 		}
 		var best ast.Node
 		for _, a := range astLoops {
-			if used[a] {
+			if used[a] || rfNodes[a] {
 				continue
 			}
 			if lo.IsValid() && (a.Pos() > lo || a.End() < hi) {
@@ -350,35 +371,9 @@ func (ft *FuncTr) loopByOrdinal(n int) *LoopInfo {
 			return l
 		}
 	}
-	return nil
-}
-
-// computeLoopMods: what a loop body may modify.
-func (ft *FuncTr) computeLoopMods(l *LoopInfo) error {
-	l.modLocals = map[*ssa.Alloc]bool{}
-	l.modArrays = map[string]*Sort{}
-	l.modIters = map[*ssa.Range]bool{}
-	l.modGhost = map[string]*Sort{}
-	for b := range l.Blocks {
-		for _, in := range b.Instrs {
-			ms, err := ft.instrMods(in)
-			if err != nil {
-				return err
-			}
-			for a := range ms.locals {
-				l.modLocals[a] = true
-			}
-			for n, s := range ms.arrays {
-				l.modArrays[n] = s
-			}
-			for n, s := range ms.ghost {
-				l.modGhost[n] = s
-			}
-			if nx, ok := in.(*ssa.Next); ok {
-				if r, ok := nx.Iter.(*ssa.Range); ok {
-					l.modIters[r] = true
-				}
-			}
+	for _, l := range ft.rfLoops {
+		if l.Ordinal == n {
+			return l
 		}
 	}
 	return nil
@@ -428,7 +423,12 @@ func (ft *FuncTr) allocByName(name string, at token.Pos) *ssa.Alloc {
 }
 
 func (ft *FuncTr) specIdent(e *SpecEnv, name string) (SV, bool) {
-	// loop context: iteration ghosts and locals
+	// loop context: iteration ghosts and locals (under old(...), parameters denote their entry values)
+	if e.loop != nil && e.st == ft.init {
+		if v, ok := ft.params[name]; ok {
+			return v, true
+		}
+	}
 	if e.loop != nil {
 		l := e.loop
 		switch name {
@@ -440,6 +440,13 @@ func (ft *FuncTr) specIdent(e *SpecEnv, name string) (SV, bool) {
 			if l.RangeIter != nil {
 				return SV{T: ft.iterVisited(e.st, l.RangeIter)}, true
 			}
+			if l.RangeFunc != nil {
+				return SV{T: ft.h.ghostVar(e.st, l.rfGhost, l.rfSort)}, true
+			}
+		case "keys":
+			if l.RangeFunc != nil {
+				return SV{T: l.rfKeys}, true
+			}
 		}
 		var pos token.Pos
 		switch n := l.Node.(type) {
@@ -448,9 +455,19 @@ func (ft *FuncTr) specIdent(e *SpecEnv, name string) (SV, bool) {
 		case *ast.RangeStmt:
 			pos = n.Body.Lbrace + 1
 		}
+		if sv, ok := ft.localSV(e, name, pos); ok {
+			return sv, true
+		}
+	} else if e.pos.IsValid() && e.st != ft.init {
+		if sv, ok := ft.localSV(e, name, e.pos); ok {
+			return sv, true
+		}
+	}
+	if false {
+		var pos token.Pos
 		if al := ft.allocByName(name, pos); al != nil {
 			ty := al.Type().(*types.Pointer).Elem()
-			if al.Heap {
+			if al.Heap && ft.vals[al].Ref == nil {
 				addr := ft.vals[al].T
 				if addr == nil {
 					return SV{}, false
@@ -600,17 +617,12 @@ func (ft *FuncTr) run() error {
 	}
 	// own modifies (declared) for frame checking
 	if ft.c.ModDeclared {
-		arrs, fresh, err := ft.h.resolveModifies(ft.w.pkgOfFunc(fn), ft.c.Modifies)
+		envM := ft.newEnv(ft.init)
+		ms, err := ft.h.resolveMods(envM, ft.w.pkgOfFunc(fn), ft.c.Modifies)
 		if err != nil {
 			return err
 		}
-		ft.ownMod = newModSet()
-		for n, s := range arrs {
-			if strings.HasPrefix(n, "$") {
-				continue
-			}
-			ft.ownMod.add(n, s, fresh[n])
-		}
+		ft.ownMod = ms
 	}
 	for _, pp := range ft.c.PureParams {
 		ft.pureParams[pp] = true
@@ -626,7 +638,14 @@ func (ft *FuncTr) run() error {
 }
 
 func (ft *FuncTr) addAxioms() error {
+	myPkg := ""
+	if p := ft.w.pkgOfFunc(ft.fn); p != nil {
+		myPkg = p.PkgPath
+	}
 	for _, ax := range ft.w.axioms {
+		if strings.HasPrefix(ax.Pkg, "go.universe.tf/metallb") && ax.Pkg != myPkg {
+			continue // axioms of a module package's contract file apply to that package's functions
+		}
 		env := &SpecEnv{h: ft.h, w: ft.w, pkg: ft.w.pkgs[ax.Pkg], vars: map[string]SV{}, st: ft.init, old: ft.init, qn: &ft.qn}
 		if env.pkg == nil {
 			env.pkg = ft.w.pkgOfFunc(ft.fn)
@@ -705,7 +724,7 @@ func (ft *FuncTr) merge(b *ssa.BasicBlock, es []Edge) (*State, *Term) {
 			lk[k] = true
 		}
 	}
-	for k := range lk {
+	for _, k := range sortedAllocs(lk) {
 		var ts []*Term
 		same := true
 		for _, e := range es {
@@ -784,7 +803,7 @@ func (ft *FuncTr) merge(b *ssa.BasicBlock, es []Edge) (*State, *Term) {
 			ik[k] = true
 		}
 	}
-	for k := range ik {
+	for _, k := range sortedRanges(ik) {
 		var ts []*Term
 		same := true
 		for _, e := range es {
@@ -864,7 +883,7 @@ func (ft *FuncTr) block(b *ssa.BasicBlock) error {
 		}
 		// havoc
 		st = pre.clone()
-		for a := range l.modLocals {
+		for _, a := range sortedAllocs(l.modLocals) {
 			if a.Heap {
 				continue
 			}
@@ -873,10 +892,17 @@ func (ft *FuncTr) block(b *ssa.BasicBlock) error {
 			ft.assume(preAt, ft.typeInvNoAlloc(nv, ty))
 			st.locals[a] = nv
 		}
-		for _, n := range sortedKeys(l.modArrays) {
-			srt := l.modArrays[n]
-			st.heap[n] = ft.d.Fresh(fmt.Sprintf("%s_h%d", n, b.Index), srt)
-			ft.h.arrSorts[n] = srt
+		lms := ft.loopModSet(l, pre)
+		preNext := ft.h.nextID(pre)
+		for _, n := range lms.names() {
+			am := lms.arrs[n]
+			before := ft.h.arr(pre, n, am.sort)
+			after := ft.d.Fresh(fmt.Sprintf("%s_h%d", n, b.Index), am.sort)
+			st.heap[n] = after
+			ft.h.arrSorts[n] = am.sort
+			if !am.whole {
+				ft.assume(preAt, frameCond(am, before, after, preNext))
+			}
 		}
 		for _, n := range sortedKeys(l.modGhost) {
 			old := ft.h.ghostVar(pre, n, l.modGhost[n])
@@ -886,16 +912,16 @@ func (ft *FuncTr) block(b *ssa.BasicBlock) error {
 				ft.assume(preAt, Le(old, nv))
 			}
 		}
-		for r := range l.modIters {
+		for _, r := range sortedRanges(l.modIters) {
 			mt := r.X.Type().Underlying().(*types.Map)
 			ks := ft.w.sortOf(ft.d, mt.Key())
 			st.iters[r] = ft.d.Fresh(fmt.Sprintf("visited_h%d", b.Index), SArray(ks, SBool))
 		}
-		for _, n := range sortedKeys(l.modArrays) {
+		for _, n := range lms.names() {
 			ft.h.noteHavoc(st.heap[n], ft.h.nextID(st))
 		}
 		// locals typed as references: keep allocatedness
-		for a := range l.modLocals {
+		for _, a := range sortedAllocs(l.modLocals) {
 			if a.Heap {
 				continue
 			}
@@ -1222,4 +1248,49 @@ func rootTerm(s string) string {
 		}
 	}
 	return s
+}
+
+// localSV: the current value of the local variable called name that is visible at pos
+func (ft *FuncTr) localSV(e *SpecEnv, name string, pos token.Pos) (SV, bool) {
+	al := ft.allocByName(name, pos)
+	if al == nil {
+		return SV{}, false
+	}
+	ty := al.Type().(*types.Pointer).Elem()
+	v, seen := ft.vals[al]
+	if al.Heap && (!seen || v.Ref == nil) {
+		if v.T == nil {
+			return SV{}, false
+		}
+		return SV{Addr: v.T, Ty: ty}, true
+	}
+	return SV{T: ft.localGet(e.st, al), Ty: ty}, true
+}
+
+func sortedAllocs(m map[*ssa.Alloc]bool) []*ssa.Alloc {
+	var out []*ssa.Alloc
+	for a := range m {
+		out = append(out, a)
+	}
+	sort.Slice(out, func(i, j int) bool {
+		if out[i].Pos() != out[j].Pos() {
+			return out[i].Pos() < out[j].Pos()
+		}
+		return out[i].Name() < out[j].Name()
+	})
+	return out
+}
+
+func sortedRanges(m map[*ssa.Range]bool) []*ssa.Range {
+	var out []*ssa.Range
+	for a := range m {
+		out = append(out, a)
+	}
+	sort.Slice(out, func(i, j int) bool {
+		if out[i].Pos() != out[j].Pos() {
+			return out[i].Pos() < out[j].Pos()
+		}
+		return out[i].Name() < out[j].Name()
+	})
+	return out
 }
